@@ -31,6 +31,8 @@ def build_dict_model(world, placement, order=None, compact=1, circular=False,
     from formulas import ExcelModel
     items = dict_items(world, placement)
     if order is not None:
+        assert sorted(k for k in order if k < len(items)) == \
+            list(range(len(items))), 'order must cover every item'
         items = [items[k] for k in order if k < len(items)]
     d = dict(items)
     m = (model_cls or ExcelModel)()
